@@ -96,6 +96,18 @@ func newResult(t reflect.Type, opts resultOptions) (result, error) {
 					return nil, newErrInvalidInput(
 						fmt.Sprintf("invalid dig.As: %v does not implement %v", t, ifaceType), nil)
 				}
+				// A type listed twice still yields one member of
+				// the group, not two.
+				listed := false
+				for _, at := range asTypes {
+					if at == ifaceType {
+						listed = true
+						break
+					}
+				}
+				if listed {
+					continue
+				}
 				asTypes = append(asTypes, ifaceType)
 			}
 			if len(asTypes) > 0 {
